@@ -97,7 +97,8 @@ fn real_main() -> i32 {
             0
         }
         Some("c09-worker") => {
-            props_purity::child_worker(args[2].parse().unwrap_or(0), args[3].parse().unwrap_or(0), args[4].parse().unwrap_or(1), &args[5]);
+            let alphabet: Vec<usize> = args.get(6).map(|a| a.split(',').filter_map(|x| x.parse().ok()).collect()).unwrap_or_else(|| (0..props_purity::NCALLS).collect());
+            props_purity::child_worker(args[2].parse().unwrap_or(0), args[3].parse().unwrap_or(0), args[4].parse().unwrap_or(1), &args[5], &alphabet);
             0
         }
         Some("run") => {
